@@ -73,6 +73,10 @@ theorem neg_reg_annihilate (R : RegNode α) (e : Stream Bool) (r : α) (he : e =
     regS e r (negOf R) = R.out := by
   subst he; subst hr; rfl
 
+/-- why it is called negative: at an enabled edge the resolved negative register shows now what `R` shows in the next cycle -/
+theorem neg_reg_is_next (R : RegNode α) (t : Nat) (h : R.en t = true) : negOf R t = R.out (t + 1) := by
+  simp [negOf, RegNode.out, regS_succ, h]
+
 example : (RegNode.mk (fun t => t % 2 == 0) 9 (fun t => t + 100)).out 3 = 102 := by decide
 
 /-- (e) Balanced register tree: if the model's `latency` of the tree is `n` (all paths from group inputs agree) and the reset
@@ -123,6 +127,20 @@ theorem delay_compose (en : Stream Bool) (r : α) (m n : Nat) (s : Stream α) :
 theorem retime_state_advanced (m : Mealy σ ι ο) (en : Stream Bool) (r : ι) (xs : Stream ι) (t : Nat) :
     m.run en (regS en r xs) t = regS en (m.out m.init r) ((m.advance r).run en xs) t :=
   Mealy.retime_advanced m en r xs t
+
+/-- (b-ff) Feed-forward registers only (after `k` consumed inputs the state has forgotten where it started): what
+`retimeForwardToOutput` produces (state registers keep their reset value) equals the reference twin from the cycle the pipeline
+has filled, i.e. once `k + 1` enabled edges have passed. -/
+theorem retime_state_filled (m : Mealy σ ι ο) (k : Nat) (hf : m.Forgets k) (en : Stream Bool) (r : ι) (xs : Stream ι)
+    (t : Nat) (ht : k + 1 ≤ cnt en t) :
+    m.run en (regS en r xs) t = regS en (m.out m.init r) (m.run en xs) t :=
+  Mealy.retime_filled m k hf en r xs t ht
+
+-- one feed-forward register: state = last input
+example : (⟨7, fun _ x => x, fun s x => s + x⟩ : Mealy Nat Nat Nat).Forgets 1 := by
+  intro s s' ws h
+  match ws, h with
+  | [_], _ => rfl
 
 /-- (b') What `retimeForwardToOutput` produces when it retimes over anchored registers (they keep their reset value): the
 region's output function applied to the delayed input and to the *delayed state*. -/
